@@ -9,4 +9,5 @@ cp /repo/Cargo.lock harness/Cargo.lock 2>/dev/null || true
 harness/target/release/harness dump-constants > lean/DnsModel/Generated/Constants.lean.new
 if cmp -s lean/DnsModel/Generated/Constants.lean.new lean/DnsModel/Generated/Constants.lean; then rm lean/DnsModel/Generated/Constants.lean.new; else mv lean/DnsModel/Generated/Constants.lean.new lean/DnsModel/Generated/Constants.lean; fi
 if [ -f gen_fntable.py ]; then python3 gen_fntable.py /repo/src/c_abi.rs /repo/src/bin/c_hook/c_hook.h > lean/DnsModel/Generated/FnTable.lean.new && { if cmp -s lean/DnsModel/Generated/FnTable.lean.new lean/DnsModel/Generated/FnTable.lean; then rm lean/DnsModel/Generated/FnTable.lean.new; else mv lean/DnsModel/Generated/FnTable.lean.new lean/DnsModel/Generated/FnTable.lean; fi; }; fi
+python3 rs2lean.py lean/DnsModel/Generated || true
 (cd lean && lake build)
